@@ -209,6 +209,8 @@ pub enum Term {
     Collect,
     CollectInto(Target),
     CollectX,
+    /// collect_x behind a last `map` to the zero-sized `()`: the observable value is the number of units returned
+    CollectXUnit,
     Count,
     ForEach,
     Reduce(RedOp),
@@ -236,6 +238,7 @@ impl Term {
             Term::Collect => "collect",
             Term::CollectInto(_) => "collect_into",
             Term::CollectX => "collect_x",
+            Term::CollectXUnit => "collect_x_unit",
             Term::Count => "count",
             Term::ForEach => "for_each",
             Term::Reduce(_) => "reduce",
@@ -268,6 +271,7 @@ impl Term {
             Term::CollectVec
                 | Term::CollectInto(_)
                 | Term::CollectX
+                | Term::CollectXUnit
                 | Term::Count
                 | Term::ForEach
                 | Term::Reduce(_)
@@ -671,6 +675,7 @@ impl Term {
             "collect_vec" => Term::CollectVec,
             "collect" => Term::Collect,
             "collect_x" => Term::CollectX,
+            "collect_x_unit" => Term::CollectXUnit,
             "count" => Term::Count,
             "for_each" => Term::ForEach,
             "sum" => Term::Sum,
